@@ -524,13 +524,17 @@ def register_in_mps_quantizers(mod: fx.GraphModule):
     for n in mod.graph.nodes:
         if is_inherited_layer(n, mod, (MPSModule,)):
             sub_mod = cast(MPSModule, mod.get_submodule(str(n.target)))
-            prev_n = n.meta['input_features_set_by']
-            if prev_n.op == 'placeholder':
+            if n.meta['input_features_set_by'].op == 'placeholder':
                 continue
-            while not is_inherited_layer(prev_n, mod, (MPSModule,)):
-                prev_n = prev_n.meta['input_features_set_by']
-                if isinstance(prev_n, list):
-                    prev_n = prev_n[0]
+            # the input quantizer is the output quantizer of the closest MPS layer that
+            # (re-)quantizes the consumed tensor: follow the dataflow, not the features
+            # definition, so that depthwise convolutions and quantized sums are not skipped
+            prev_n = n.all_input_nodes[0]
+            while not is_inherited_layer(prev_n, mod, (MPSModule,)) and \
+                    len(prev_n.all_input_nodes) > 0:
+                prev_n = prev_n.all_input_nodes[0]
+            if not is_inherited_layer(prev_n, mod, (MPSModule,)):
+                continue  # not quantized input
             prev_submod = mod.get_submodule(str(prev_n.target))
             sub_mod.in_mps_quantizer = cast(MPSPerLayerQtz, prev_submod.out_mps_quantizer)
 
